@@ -21,13 +21,13 @@ CHECK = {
             "name": "c15-attr", "pkg": TR, "harness": HARNESS,
             "test": "^TestVerifC15Attr$",
             "shards": {"quick": 16, "thorough": 16},
-            "budget_s": {"quick": 45, "thorough": 420},
+            "budget_s": {"quick": 25, "thorough": 240},
         },
         {
             "name": "c15-transp", "pkg": TR, "harness": HARNESS,
             "test": "^TestVerifC15Transp$",
             "shards": {"quick": 16, "thorough": 16},
-            "budget_s": {"quick": 45, "thorough": 420},
+            "budget_s": {"quick": 25, "thorough": 240},
         },
     ],
 }
